@@ -9,7 +9,9 @@ Correspondence (real CLI in-process through click's CliRunner, model = coq/Model
      (+ extra --field columns, gaps) vs `cload_pairs`;
   D. `parse_field_param` incl. malformed arguments; E. dump -t bins/chroms and zoomify -r spellings (oracle only);
   F. history pass: the same paths / URIs / BINS strings reused in one process while the files behind them are rewritten
-     (module-level caches, stale objects), every output judged for the data stored NOW.
+     (module-level caches, stale objects), every output judged for the data stored NOW;
+  G. names pass: chromosome names that look like numbers / floats / NA tokens / booleans through every text round trip
+     (known finding D37: a name equal to a pandas NA token is refused by load / cload pairs, exit 1).
 Property oracle (never calls the code under test for its expected value): a plain-python reading of the
 option documentation applied to the *input data* the cooler was created from, text read back with the csv
 module; plus the library queries (Cooler.pixels / matrix(as_pixels=True) / annotate) as the "corresponding
@@ -45,7 +47,10 @@ RULE = ("dump: per cooler (12 quick / 30 thorough small coolers: symmetric+squar
         "(comment lines, gz, stdin, short flags, duplex with diagonal and mirrored records, positions inside bins, agg=max/min, --append, --metadata ...); "
         "history pass (54 steps in ONE process): one .cool path rewritten between dumps with 6 other coolers (same nbins / variable bins / same chromsizes "
         "and nbins / other names / other content) in two orders, 4 coolers as groups of one file dumped alternately under two URI spellings and then swapped, "
-        "load -f bg2 and cload pairs with one BINS string (bed and chromsizes:binsize) whose file is rewritten in between, two orders; non-trivial = at least one data row and at least one non-default option / a non-identity column layout; distinct by input hash")
+        "load -f bg2 and cload pairs with one BINS string (bed and chromsizes:binsize) whose file is rewritten in between, two orders; "
+        "names pass: 14 chromosome-name alphabets (all digits, leading zeros, 1/01/001, digit+letter, float-like, scientific, pandas NA tokens, bool-like, "
+        "inf/hex/sign, dots-dashes-underscores, 180-character names, all mixed), each as the only kind in its files: dump / dump --join / -t bins / -t chroms, "
+        "dump|load coo and bg2, hand-written bg2 and pairs files, BINS as BED file and as chromsizes:binsize, stored bin and chromosome tables compared as strings in order; non-trivial = at least one data row and at least one non-default option / a non-identity column layout; distinct by input hash")
 TRUSTED = ["pandas to_csv / read_csv tokenisation are observed through the CLI, not modelled (the model works on tokenised records and on cells)",
            "click option parsing is observed, not modelled"]
 ASSUMPTIONS = ["region -> bin range (region_to_extent) is given to the model as the pair of bin ranges computed by an independent overlap rule (owned by C04)",
